@@ -66,9 +66,9 @@ func (Prop) Assumptions() []string {
 
 // ---------------------------------------------------------------- generation
 
-var derivations = []string{"session", "session", "with_context", "debug", "begin", "session_newdb", "session_skiphooks", "session_newdb_skiphooks", "session_newdb_ctx", "session_ctx_skiphooks"}
+var derivations = []string{"session_batch", "session", "session", "with_context", "debug", "begin", "session_newdb", "session_skiphooks", "session_newdb_skiphooks", "session_newdb_ctx", "session_ctx_skiphooks"}
 var readFins = []string{"find", "find", "first", "take", "count", "pluck", "rows", "scan", "find_in_batches", "first_or_init", "count_direct", "count_direct", "pluck_direct", "rows_direct", "scan_direct", "last", "row_direct", "row_direct", "row", "tx_direct"}
-var writeFins = []string{"update", "updates", "delete", "create", "update_direct"}
+var writeFins = []string{"update", "updates", "delete", "create", "update_direct", "create_slice_direct", "create_slice_direct"}
 var methods = []string{"model", "model", "where", "where", "where", "or", "not", "select", "omit", "order", "order", "limit", "offset", "group", "having", "joins", "joins", "distinct", "unscoped", "scopes", "preload", "returning", "returning", "order_clause", "locking", "on_conflict", "table", "model", "attrs", "assign", "where_sub", "where_group", "where_group", "joins_db", "table", "from_clause", "group_clause", "limit_clause", "insert_modifier", "inner_joins", "select_expr", "omit_assoc"}
 
 func genStep(r *core.Rand, nHandles int, palette []string) Step {
@@ -175,7 +175,7 @@ func (Prop) Gen(r *core.Rand, tier string) interface{} {
 }
 
 func isWrite(e string) bool {
-	return e == "update" || e == "updates" || e == "delete" || e == "create" || e == "update_direct"
+	return e == "update" || e == "updates" || e == "delete" || e == "create" || e == "update_direct" || e == "create_slice_direct"
 }
 
 func isDerivation(e string) bool {
@@ -631,6 +631,15 @@ func finish(e *env.Env, db *gorm.DB, ch Chain, dry bool) (o obs) {
 		tx = db.Where("id > ?", 1000).Delete(&fam.User{})
 	case "create":
 		tx = db.Create(&fam.User{ID: 9000, Name: "created", Age: 5})
+	case "create_slice_direct":
+		// five records at once.  In a DryRun history this runs straight on the handle (no
+		// session in between, whose Config would be a copy); how the handle batches is
+		// visible in the statement the call leaves behind
+		us := make([]fam.User, 5)
+		for i := range us {
+			us[i] = fam.User{ID: uint(9001 + i), Name: fmt.Sprintf("batch%d", i), Age: i}
+		}
+		tx = db.Create(&us)
 	}
 	if tx != nil {
 		if tx.Error != nil && o.Err == "" {
@@ -670,6 +679,8 @@ func derive(db *gorm.DB, how string) *gorm.DB {
 		return db.Debug()
 	case "begin":
 		return db.Begin()
+	case "session_batch":
+		return db.Session(&gorm.Session{CreateBatchSize: 2})
 	case "session_newdb":
 		return db.Session(&gorm.Session{NewDB: true})
 	case "session_skiphooks":
